@@ -54,6 +54,14 @@ check("C19", "other",
       "difference is shown' are not claimed.",
       E2_NOTE, E2_TECH + "; Kani/CBMC harness as second engine", "E2+E1", "DESIGN.md §3 C19")
 
+check("C06", "other",
+      "Partial: (a) the fence classifier extract_code_block_start is total, opens only on >= 3 backticks, recognises every "
+      "`>=3 backticks + backtick-free info string` line and returns pieces that re-assemble the line (all UTF-8 lines <= 6/8 "
+      "bytes); (b) MarkdownIterator driven to exhaustion on every document of <= 3/4 short ASCII lines: tokens account for "
+      "every line once, in order, with its index, blocks end exactly at their closing line or at the end of the document — "
+      "nothing is dropped, hidden or truncated. Titles, YAML, expectation parsing and test-case field contents are not claimed.",
+      E2_NOTE, E2_TECH, "E2+E1", "DESIGN.md §3 C06")
+
 NA_LIST = [
     ("C07", "Cram parser: every clause is about string contents inside one regex-calling function; out of reach of Kani (heap/regex) and of control-flow-only MIR execution."),
     ("C12", "Shell-state carry-over is implemented by a bash script; no encoding of bash semantics is available here."),
@@ -74,7 +82,7 @@ def main():
             "guard": "scrut_verif",
             "enable": "RUSTFLAGS='--cfg scrut_verif' (set by lib/common.py for the native crate and the Kani harness crate)",
             "baseline_off_cmd": "cd /repo && cargo nextest run --workspace --no-fail-fast --tool-config-file pb:/w/lib/nextest.toml --profile pb --test-threads 8 --offline || cargo test --workspace --no-fail-fast --offline",
-            "source_commits": ["c78dcdb"],
+            "source_commits": ["c78dcdb", "fe969de"],
             "add_only": True,
         },
         "engines": [
